@@ -97,6 +97,8 @@ class State:
         self.present = set()      # (map, key): key established present and nothing erased since
         self.retref = []          # per inlined call: does the callee return a reference
         self.rangecopy = {}       # local vector V -> caller's range R: V was filled, in order, with one (r, nullopt) per element r of R
+        self.refs = {}            # reference member of a local helper object -> the location it was bound to by the constructor
+        self.objs = []            # (scope_depth, number of guards declared before it, object loc, record name): locals whose destructor does work
 
     def clone(self):
         s = State.__new__(State)
@@ -116,6 +118,8 @@ class State:
         s.present = set(self.present)
         s.retref = list(self.retref)
         s.rangecopy = dict(getattr(self, 'rangecopy', {}))
+        s.refs = dict(getattr(self, 'refs', {}))
+        s.objs = list(getattr(self, 'objs', []))
         s.this_obj = list(getattr(self, 'this_obj', []))
         return s
 
@@ -272,6 +276,13 @@ MUTATING_ALGOS = ('rotate', 'remove_if', 'remove', 'sort', 'stable_sort', 'rever
                   'replace', 'replace_if', 'nth_element', 'partial_sort', 'sample', 'inplace_merge', 'merge', 'next_permutation', 'prev_permutation')
 READING_ALGOS = ('find', 'count', 'min_element', 'max_element', 'minmax_element', 'lower_bound', 'upper_bound', 'equal_range', 'binary_search',
                  'equal', 'mismatch', 'search', 'adjacent_find', 'is_sorted', 'is_partitioned', 'all_of', 'lexicographical_compare', 'reduce')
+
+
+def _walk_nodes(n):
+    if isinstance(n, dict):
+        yield n
+        for c in n.get('inner', []) or []:
+            yield from _walk_nodes(c)
 
 
 class LambdaMethod:
@@ -651,6 +662,8 @@ class Evaluator:
         """fld with simplification through known results (emplace / make_pair)"""
         if isinstance(b, tuple) and b and b[0] == 'addr':
             b = b[1]                 # p->f with p = &x
+        if b == ('deref', ('this',)):
+            b = ('this',)            # (*this).f, also through a reference bound to *this
         if isinstance(b, tuple):
             if b[0] == 'rcslot' and name == 'first' and b[1] in st.rangecopy:
                 return ('idx', st.rangecopy[b[1]], b[2])         # the key copied from the caller's range
@@ -686,7 +699,11 @@ class Evaluator:
                             return kv[0]
                         if name == 'second' and ('fld', b, name) not in st.store and not (isinstance(kv[1], tuple) and kv[1] and kv[1][0] == 'ctor'):
                             return kv[1]          # (a record-typed mapped value stays a location: its members are written through it)
-        return ('fld', b, name)
+        loc = ('fld', b, name)
+        refs = getattr(st, 'refs', None)
+        if refs and loc in refs:
+            return refs[loc]            # a reference member of a local helper object: the thing it was bound to
+        return loc
 
     def e_BinaryOperator(self, n, st):
         op = n['opcode']
@@ -1041,6 +1058,39 @@ class Evaluator:
             yield st, self.unknown(st, 'expr:LambdaExpr (generic / no call operator)', n)
             return
         self.ctx.lambdas[ops_[0]['id']] = LambdaMethod(ops_[0], st.fn_stack[-1] if st.fn_stack else '?')
+        # init-captures (`[this, victim = m_lfu_list.begin()->second]`) are evaluated where the lambda is created, not where it runs
+        inits = [c for c in n.get('inner', []) if isinstance(c, dict) and c.get('kind') and c.get('kind') not in
+                 ('CXXRecordDecl', 'CompoundStmt', 'CXXThisExpr', 'DeclRefExpr')
+                 and not (c.get('kind') == 'ImplicitCastExpr' and self.strip(c).get('kind') == 'DeclRefExpr')
+                 and not (c.get('kind') == 'CXXConstructExpr' and len([x for x in c.get('inner', []) if isinstance(x, dict) and x.get('kind')]) == 1
+                          and self.strip([x for x in c['inner'] if isinstance(x, dict) and x.get('kind')][0]).get('kind') == 'DeclRefExpr'
+                          and (self.strip([x for x in c['inner'] if isinstance(x, dict) and x.get('kind')][0]).get('referencedDecl') or {}).get('id') in st.env)]
+        body = next((c for c in n.get('inner', []) if isinstance(c, dict) and c.get('kind') == 'CompoundStmt'), None)
+        if inits and body is not None:
+            unbound = []
+            for x in _walk_nodes(body):
+                if x.get('kind') == 'DeclRefExpr':
+                    rd = x.get('referencedDecl') or {}
+                    if rd.get('kind') == 'VarDecl' and rd.get('id') not in st.env and rd.get('id') not in [u.get('id') for u in unbound] \
+                            and rd.get('id') not in getattr(self.prog, 'constants', {}):
+                        unbound.append(rd)
+            if len(unbound) == len(inits):
+                def go(i, st):
+                    if i == len(inits):
+                        yield st
+                        return
+                    # pair by type where that is unambiguous, else by order
+                    cand = [u for u in unbound if (u.get('type') or {}).get('qualType') == (inits[i].get('type') or {}).get('qualType')]
+                    u = cand[0] if len(cand) == 1 else unbound[i]
+                    outs = list(self.rv(inits[i], st)) if inits[i].get('valueCategory') != 'prvalue' else list(self.eval(inits[i], st))
+                    for st2, t in outs[:1]:
+                        loc = ('var', u.get('name'), u.get('id'))
+                        st2.store[loc] = t
+                        st2.env[u['id']] = loc
+                        yield from go(i + 1, st2)
+                for st2 in go(0, st):
+                    yield st2, ('lambda', ops_[0]['id'])
+                return
         yield st, ('lambda', ops_[0]['id'])
 
     def e_CXXOperatorCallExpr(self, n, st):
@@ -1653,6 +1703,18 @@ class Evaluator:
             return
         tc = typeclass(qt(base))
         rec = self.record_of(qt(base)) if tc == 'other' else None
+        if tc == 'other' and rec is None and (mid in self.cm.by_id or any(x.name == name for x in self.cm.methods)) \
+                and getattr(st, 'refs', None):
+            # a member function of the container called through a reference to it (`m_cache.do_access(e)` inside a helper object)
+            outs = list(self.eval(base, st.clone()))
+            if len(outs) == 1 and outs[0][1] in (('this',), ('deref', ('this',))):
+                m = self.cm.by_id.get(mid)
+                if m is None:
+                    cands = [x for x in self.cm.methods if x.name == name and len(x.params) == len(args)]
+                    m = cands[0] if cands else None
+                if m is not None and m.body is not None:
+                    yield from self.inline(m, args, n, st, this_obj=None)
+                    return
         if rec is not None and mid in getattr(rec, 'methods', {}):
             # member function of a nested record (small private abstraction): inlined with `this` bound to the object
             if mid not in self.ctx.lambdas:
@@ -2090,6 +2152,10 @@ class Evaluator:
             rt = (m.node.get('type', {}).get('qualType', '') or '')
             rt = rt.rsplit('->', 1)[1] if '->' in rt else rt.split('(')[0]
             st2.retref = st2.retref + [rt.strip().endswith('&')]
+            if getattr(m, 'inits', None) and this_obj is not None:
+                okc = all(self.ctor_init_obj(ini, st2, this_obj, m.rec) for ini in m.inits)
+                if not okc:
+                    self.unknown(st2, 'constructor of %s (member initialiser not modelled)' % m.rec.name, n)
             for st3, flow in self.exec(m.body, st2):
                 st3.fn_stack.pop()
                 st3.retref = st3.retref[:-1]
@@ -2206,9 +2272,136 @@ class Evaluator:
                     yield from run(i + 1, st2)
 
         for st2, flow in run(0, st):
-            self.release_scope(st2, depth, n)
-            st2.scope = depth - 1
-            yield st2, flow
+            for st3 in self.leave_scope(st2, depth, n):
+                st3.scope = depth - 1
+                yield st3, flow
+
+    def leave_scope(self, st, depth, n):
+        """end of a block: lock guards are released and the destructors of the library's own helper objects (scope guards) run, in
+        reverse order of declaration"""
+        mine = [o for o in getattr(st, 'objs', []) if o[0] >= depth]
+        if not mine:
+            self.release_scope(st, depth, n)
+            yield st
+            return
+        # actions from the last declared to the first: ('obj', o) / ('guard', index)
+        gidx = [i for i, g in enumerate(st.guards) if g[0] >= depth and g[0] != -1]
+        actions = []
+        objs = sorted(mine, key=lambda o: (o[1], st.objs.index(o)))
+        for i in reversed(range(len(st.guards) + 1)):
+            for o in reversed([o for o in objs if o[1] == i]):
+                actions.append(('obj', o))
+            if i - 1 in gidx:
+                actions.append(('guard', i - 1))
+
+        def run(k, st):
+            if k == len(actions):
+                self.release_scope(st, depth, n)
+                st.objs = [o for o in st.objs if o[0] < depth]
+                yield st
+                return
+            kind, x = actions[k]
+            if kind == 'guard':
+                g = st.guards[x]
+                if g[3]:
+                    st.ev('unlock', g[2], site_of(n, st), 'scope')
+                    st.guards[x] = (g[0], g[1], g[2], False)
+                yield from run(k + 1, st)
+                return
+            st.objs = [o for o in st.objs if o is not x and o != x]
+            rec = x[3] if not isinstance(x[3], str) else self.cm.records.get(x[3])
+            lm = self.dtor_method(rec)
+            if lm is None:
+                self.unknown(st, 'destructor of %s not found' % (x[3] if isinstance(x[3], str) else x[3].name), n)
+                yield from run(k + 1, st)
+                return
+            for st2, _ in self.inline(lm, [], n, st, this_obj=x[2]):
+                yield from run(k + 1, st2)
+        yield from run(0, st)
+
+    def dtor_method(self, rec):
+        if rec is None:
+            return None
+        key = ('dtor', rec.id)
+        if key not in self.ctx.lambdas:
+            d = next((c for c in rec.node.get('inner', []) if c.get('kind') == 'CXXDestructorDecl' and not c.get('isImplicit')), None)
+            if d is None:
+                return None
+            lm = LambdaMethod(d, '%s::%s' % (self.cm.name, rec.name))
+            lm.name = '~' + str(rec.name)
+            lm.qname = '%s::%s::~%s' % (self.cm.name, rec.name, rec.name)
+            self.ctx.lambdas[key] = lm
+        return self.ctx.lambdas[key]
+
+    def construct_guard_object(self, v, st, rec):
+        """`recency_guard touch{*this, e};`: run the constructor's member initialisers (reference members are bound, value members
+        stored) and its body; the object is destroyed at the end of its block (leave_scope).  None if the shape is not supported"""
+        init = [c for c in v.get('inner', []) if c.get('kind') and not c['kind'].endswith('Comment')]
+        if len(init) != 1:
+            return None
+        ce = init[0]
+        while ce.get('kind') in ('ExprWithCleanups', 'CXXBindTemporaryExpr', 'MaterializeTemporaryExpr'):
+            sub = [c for c in ce.get('inner', []) if isinstance(c, dict) and c.get('kind')]
+            if len(sub) != 1:
+                return None
+            ce = sub[0]
+        if ce.get('kind') not in ('CXXConstructExpr', 'CXXTemporaryObjectExpr'):
+            return None
+        args = [c for c in ce.get('inner', []) if isinstance(c, dict) and c.get('kind')]
+        ctors = [c for c in rec.node.get('inner', []) if c.get('kind') == 'CXXConstructorDecl' and not c.get('isImplicit')
+                 and not c.get('explicitlyDeleted')]
+        cands = []
+        for c in ctors:
+            ps = [p for p in c.get('inner', []) if p.get('kind') == 'ParmVarDecl']
+            need = len([p for p in ps if not [x for x in p.get('inner', []) if isinstance(x, dict) and x.get('kind') and not x['kind'].endswith('Comment')]])
+            if need <= len(args) <= len(ps) and (c.get('type', {}).get('qualType') == ce.get('ctorType', {}).get('qualType') or len(ctors) == 1):
+                cands.append(c)
+        if len(cands) != 1:
+            return None
+        c = cands[0]
+        key = ('ctor', c['id'])
+        if key not in self.ctx.lambdas:
+            lm = LambdaMethod(c, '%s::%s' % (self.cm.name, rec.name))
+            lm.name = str(rec.name)
+            lm.qname = '%s::%s::%s' % (self.cm.name, rec.name, rec.name)
+            lm.inits = [x for x in c.get('inner', []) if x.get('kind') == 'CXXCtorInitializer']
+            lm.rec = rec
+            if lm.body is None:
+                lm.body = {'kind': 'CompoundStmt', 'inner': []}
+            self.ctx.lambdas[key] = lm
+        return self.ctx.lambdas[key], args
+
+    def ctor_init_obj(self, ini, st, obj, rec):
+        tgt = ini.get('anyInit') or {}
+        name = tgt.get('name')
+        inner = [c for c in ini.get('inner', []) if c.get('kind')]
+        if name is None or not inner:
+            return True
+        f = next((x for x in rec.fields if x.name == name), None)
+        if f is None:
+            return False
+        loc = ('fld', obj, name)
+        is_ref = (f.type or '').rstrip().endswith('&')
+        if inner[0].get('kind') == 'CXXDefaultInitExpr' and not [c for c in inner[0].get('inner', []) if c.get('kind')]:
+            fin = [c for c in f.node.get('inner', []) if isinstance(c, dict) and c.get('kind') and not c['kind'].endswith('Comment')]
+            if not fin:
+                return True
+            inner = fin
+        if is_ref:
+            outs = list(self.eval(inner[0], st))
+            if len(outs) != 1:
+                return False
+            st2, t = outs[0]
+            st.trace, st.store = st2.trace, st2.store
+            st.refs[loc] = t
+            return True
+        outs = list(self.rv(inner[0], st)) if inner[0].get('valueCategory') != 'prvalue' else list(self.eval(inner[0], st))
+        if len(outs) != 1:
+            return False
+        st2, t = outs[0]
+        st.trace, st.store = st2.trace, st2.store
+        st.store[loc] = t
+        return True
 
     def s_NullStmt(self, n, st):
         yield st, None
@@ -2252,12 +2445,36 @@ class Evaluator:
             rec0 = self.record_of(t) if typeclass(t) == 'other' else None
             if rec0 is not None and getattr(rec0, 'dtor_body', None) is not None:
                 # a scope guard of the library's own: its destructor does part of the operation when the scope is left
-                self.unknown(st, 'local object of %s whose destructor does work at scope exit (scope guard) is not modelled' % rec0.name, v)
+                built = self.construct_guard_object(v, st, rec0)
+                if built is None or any(fn.endswith('::~%s' % rec0.name) for fn in st.fn_stack):
+                    self.unknown(st, 'local object of %s whose destructor does work at scope exit (scope guard) is not modelled' % rec0.name, v)
+                else:
+                    lm, cargs = built
+                    obj = ('var', v.get('name'), v['id'])
+                    for st2, _ in self.inline(lm, cargs, v, st, this_obj=obj):
+                        st2.env[v['id']] = obj
+                        st2.objs = list(st2.objs) + [(st2.scope, len(st2.guards), obj, rec0.name)]
+                        yield st2
+                    return
             elif rec0 is None and typeclass(t) == 'other':
                 td = (v['type'].get('desugaredQualType') or t or '')
                 hit = next((c for c in getattr(self.prog, 'dtor_classes', ()) if re.search(r'cappuccino::(\w+::)*%s\b' % re.escape(c), td)), None)
                 if hit is not None:
-                    self.unknown(st, 'local object of %s whose destructor does work at scope exit (scope guard) is not modelled' % hit, v)
+                    specs = getattr(self.prog, 'helper_specs', {}).get(hit, [])
+                    lam = re.findall(r'\(lambda at [^)]*\)', td)
+                    pick = [r for r in specs if not lam or any(l in (fl.type or '') or l in (fl.node.get('type', {}).get('desugaredQualType') or '')
+                                                               for fl in r.fields for l in lam)]
+                    built = self.construct_guard_object(v, st, pick[0]) if len(pick) == 1 else None
+                    if built is None or any(fn.endswith('::~%s' % hit) for fn in st.fn_stack):
+                        self.unknown(st, 'local object of %s whose destructor does work at scope exit (scope guard) is not modelled' % hit, v)
+                    else:
+                        lm, cargs = built
+                        obj = ('var', v.get('name'), v['id'])
+                        for st2, _ in self.inline(lm, cargs, v, st, this_obj=obj):
+                            st2.env[v['id']] = obj
+                            st2.objs = list(st2.objs) + [(st2.scope, len(st2.guards), obj, pick[0])]
+                            yield st2
+                        return
         init = [c for c in v.get('inner', []) if c.get('kind') and not c['kind'].endswith('Comment')]
         is_ref = v['type'].get('qualType', '').rstrip().endswith('&')
         if is_ref and init:
@@ -2585,9 +2802,9 @@ class Evaluator:
             st.scope += 1
             depth = st.scope
             for st2, flow in runpre(0, st):
-                self.release_scope(st2, depth, n)
-                st2.scope = depth - 1
-                yield st2, flow
+                for st3 in self.leave_scope(st2, depth, n):
+                    st3.scope = depth - 1
+                    yield st3, flow
             return
         yield from runpre(0, st)
 
@@ -2979,9 +3196,9 @@ class Evaluator:
         st.scope += 1
         depth = st.scope
         for st2, flow in self.do_loop(n, st, 'for', init, cond, inc, body):
-            self.release_scope(st2, depth, n)
-            st2.scope = depth - 1
-            yield st2, flow
+            for st3 in self.leave_scope(st2, depth, n):
+                st3.scope = depth - 1
+                yield st3, flow
 
     def s_CXXForRangeStmt(self, n, st):
         parts = n.get('inner', [])
